@@ -88,7 +88,7 @@ func buildRestartChain(rep *Report, s Setup, g *Gen, length uint32, gaps map[uin
 			if res.Diff != "" {
 				rep.Disagree("lockstep:restart-ref", res.Diff, path)
 			} else {
-				rep.Note("infrastructure: reference chain stuck at %d: %s", h, res.ImplMsg)
+				rep.Disagree("reference:stuck:"+res.ImplClass, fmt.Sprintf("h=%d %s", h, res.ImplMsg), path)
 			}
 			return nil, nil, false
 		}
@@ -100,10 +100,20 @@ func buildRestartChain(rep *Report, s Setup, g *Gen, length uint32, gaps map[uin
 // replayWithRestarts syncs the stored chain on a fresh daemon + model, restarting both after
 // the heights in at; returns the final dump.
 func replayWithRestarts(rep *Report, s Setup, chain []*BlockSpec, at map[uint32]bool) ([]string, bool) {
+	d, ok, _ := replayWithRestartsX(rep, s, chain, at)
+	return d, ok
+}
+
+// replayWithRestartsX also reports whether the model followed the implementation through the
+// whole restarted run (then a difference from the continuous run is the restart dependence the
+// model itself has — the averaging cache); after a disagreement the run goes on without the
+// model so that the final ledgers can still be compared.
+func replayWithRestartsX(rep *Report, s Setup, chain []*BlockSpec, at map[uint32]bool) ([]string, bool, bool) {
+	explained := true
 	run, err := NewRun(s)
 	if err != nil {
 		rep.Note("infrastructure: %v", err)
-		return nil, false
+		return nil, false, false
 	}
 	defer run.Close()
 	run.FullEvery = 1000
@@ -116,22 +126,27 @@ func replayWithRestarts(rep *Report, s Setup, chain []*BlockSpec, at map[uint32]
 		if res.Diff != "" || !res.ImplOK {
 			path := WriteReplay(rep.Property, "restart-run", Replay{Property: rep.Property, Scenario: "restart", Setup: s,
 				What: fmt.Sprintf("run with restarts %v: height %d", keys(at), b.Height), Detail: []string{res.Diff, res.ImplMsg, res.ModelAns}, Blocks: ChainJSON(chain)})
-			if res.Diff != "" {
+			if res.Diff != "" && res.ImplOK {
 				rep.Disagree("lockstep:restart-run", res.Diff, path)
+				explained = false
+				run.NoModel = true // carry on with the implementation alone
 			} else {
+				if res.Diff != "" {
+					rep.Disagree("lockstep:restart-run", res.Diff, path)
+				}
 				rep.Violate("restart:stuck", fmt.Sprintf("with restarts at %v the daemon cannot apply height %d: %s", keys(at), b.Height, res.ImplMsg), path)
+				return nil, false, false
 			}
-			return nil, false
 		}
 		final = res.Dump
 		if at[b.Height] {
 			if err := run.RestartDaemon(); err != nil {
 				rep.Violate("restart:refused", fmt.Sprintf("restart after height %d refused: %v", b.Height, err), "")
-				return nil, false
+				return nil, false, false
 			}
 		}
 	}
-	return final, true
+	return final, true, explained
 }
 
 func keys(m map[uint32]bool) []uint32 {
@@ -185,7 +200,7 @@ func scenRestart(rep *Report, tier string, seed int64) {
 		sets = append(sets, m)
 	}
 	for _, at := range sets {
-		dump, ok := replayWithRestarts(rep, s, chain, at)
+		dump, ok, explained := replayWithRestartsX(rep, s, chain, at)
 		if !ok {
 			continue
 		}
@@ -205,7 +220,9 @@ func scenRestart(rep *Report, tier string, seed int64) {
 				Detail: []string{diff, fmt.Sprintf("ungraded heights: %v", keys(gaps))}, Blocks: ChainJSON(chain),
 				Extra:  map[string]interface{}{"restart_after": keys(at)}})
 			sig := "restart:ledger-differs"
-			if afterGap {
+			if afterGap && explained {
+				// the model, restarted at the same heights, computes the same different ledger:
+				// this is the averaging cache's documented count-versus-window behaviour
 				sig = "restart:average-cache-after-ungraded-block"
 			}
 			rep.Violate(sig, fmt.Sprintf("restarts after %v: %s", keys(at), diff), path)
